@@ -54,11 +54,22 @@ def run(ctx):
     ok = len(ret_stmts) == 1 and isinstance(ret_stmts[0].value, ast.Tuple) and len(ret_stmts[0].value.elts) == 5
     ctx.check('R2', 'remote_reduce returns a 5-tuple (callable, args, state, listitems, dictitems)', ok, 'RemotePickler36.remote_reduce', 'reduce-arity',
               'the reduce value is not the 5-tuple of object.__reduce_ex__', where=loc(rr, ret_stmts[0]) if ret_stmts else loc(rr, rr.node))
+    SV = LV = DV = None
+    for st in walk_local(rr.node):
+        if isinstance(st, ast.Assign) and isinstance(st.targets[0], ast.Name):
+            v = st.value
+            if isinstance(v, ast.Call) and last_attr(v) == '__getstate__':
+                SV = st.targets[0].id
+            if isinstance(v, ast.IfExp) and 'isinstance(obj, list)' in norm(v.test):
+                LV = st.targets[0].id
+            if isinstance(v, ast.IfExp) and 'isinstance(obj, dict)' in norm(v.test):
+                DV = st.targets[0].id
     if ok:
         e = ret_stmts[0].value.elts
         names = [norm(x) for x in e]
-        ctx.check('R2', 'reduce value carries state, listitems, dictitems in this order', names[2:] == ['state', 'listitems', 'dictitems'], 'RemotePickler36.remote_reduce',
-                  'reduce-order:' + ','.join(names[2:]), f'the reduce value lists {names[2:]}', where=loc(rr, ret_stmts[0]))
+        roles = ['state' if n == SV else 'listitems' if n == LV else 'dictitems' if n == DV else n for n in names[2:]]
+        ctx.check('R2', 'reduce value carries state, listitems, dictitems in this order', roles == ['state', 'listitems', 'dictitems'], 'RemotePickler36.remote_reduce',
+                  'reduce-order:' + ','.join(roles), f'the reduce value lists {roles}', where=loc(rr, ret_stmts[0]))
         # the callable is the re-creation helper, its args wrap (newobj, newargs, children_names)
         defs = {}
         for st in walk_local(rr.node):
@@ -94,7 +105,7 @@ def run(ctx):
     ctx.check('R2', 'the helper pushes the frames of the object\'s opt-in children', ok, 'RemoteState.recreate_obj_and_patch_setstate', 'helper-break-patches',
               'break_patches(children_names) is not called exactly once per re-created object', where=loc(rec, rec.node))
     # children_names: keys of dict state whose value is opt-in
-    ch = [st for st in walk_local(rr.node) if isinstance(st, ast.For) and 'state.items()' in norm(st.iter)]
+    ch = [st for st in walk_local(rr.node) if isinstance(st, ast.For) and f'{SV}.items()' in norm(st.iter)]
     ok = bool(ch) and any(last_attr(c) == 'append' and receiver(c) == 'children_names' for c in calls_in(ch[0])) and any(last_attr(c) == 'subject_to_custom_reduce' for c in calls_in(ch[0]))
     ctx.check('R2', 'children_names are the state keys holding opt-in objects', ok, 'RemotePickler36.remote_reduce', 'children-scan', 'opt-in children are not recorded by name', where=loc(rr, rr.node))
 
